@@ -2,8 +2,8 @@
    walks over the INFO and FORMAT blocks) followed by what decoder/info/field/value.rs read_value
    and decoder/samples.rs read_samples do with each block: the header's (Number, Type) of the key
    picks the value decoder; GT is decoded as a genotype series; the per-sample rows are filled
-   column by column (a column that yields fewer values than samples -- GT with length 0 -- leaves the
-   later rows shorter, exactly as `samples.iter_mut().zip(values)` does); IDs, FILTERs and FORMAT
+   column by column (`samples.iter_mut().zip(values)`; every column has one value per sample, also GT
+   with length 0 since a1ba5e6); IDs, FILTERs and FORMAT
    keys are sets (first occurrence kept); n_sample may not exceed the header's sample count.
    Model: definitions only. *)
 From Coq Require Import ZArith NArith List Bool.
@@ -73,12 +73,13 @@ Definition dec_fmt_kind (k : fkind) (ns : nat) (vb : list N) : rres (list cellv)
 
 Definition GT : name := [71; 84]%N.
 
-(* read_genotype_values as a column: with length 0 it yields ONE missing value whatever the sample
-   count (Genotype.dec_gt presents that as "every sample missing") *)
+(* read_genotype_values as a column: with length 0 (no sample has a genotype) every sample gets the
+   missing value (a1ba5e6; before it ONE missing value was produced whatever the sample count and
+   the following series moved one column to the left for the other samples) *)
 Definition dec_gt_col (ns : nat) (vb : list N) : rres (list cellv) :=
   match read_type vb with
   | Some (code, len, _) =>
-    if (code =? 1) && (len =? 0) then ROk [CG None]
+    if (code =? 1) && (len =? 0) then ROk (repeat (CG None) ns)
     else rbind (dec_gt ns vb) (fun l => ROk (map CG l))
   | None => RErr
   end.
